@@ -59,7 +59,7 @@ var props = map[string]*propSpec{
 		Level:       "exploration",
 		Rule:        "seeded batches from size classes {empty,one,small,wide,deep,mid,stored,tall} over small alphabets x chunk modes {1,2,3,4,5,7,8,16,64,1023,1024,1025,1026} ∪ seeded 1..1024 x build tags {default,vectors}; every (field,term) of the model plus absent ones is queried and every hit compared; distinct = distinct (batch fingerprint, chunk mode); non-trivial = >= 2 documents and >= 1 term with >= 2 hits",
 		Assumptions: commonAssumptions,
-		Runs:        simple("C01", "plain"),
+		Runs:        simple("C01", "plain", "vec"),
 		Min: mins(map[string]int64{"hits_compared": 20000, "terms_spanning_chunks": 500, "terms_card_gt_1024": 2},
 			map[string]int64{"hits_compared": 400000, "terms_spanning_chunks": 10000, "terms_card_gt_1024": 40}),
 	},
@@ -83,7 +83,7 @@ var props = map[string]*propSpec{
 		Level:       "exploration",
 		Rule:        "seeded batches (with synonyms / vectors) x chunk modes x build tags: Persist vs WriteTo bytes, independent footer parse + IEEE CRC-32 over all preceding bytes, footer accessors, and the full query surface (postings, dictionary iteration, stored, ids, doc values, thesauri, vectors) of both the in-memory and the re-opened segment against the model; distinct = (batch fingerprint, chunk mode); non-trivial = >= 2 documents and a multi-document term",
 		Assumptions: commonAssumptions,
-		Runs:        simple("C04", "plain"),
+		Runs:        simple("C04", "plain", "vec"),
 		Min: mins(map[string]int64{"files_compared": 300, "footers_checked": 300},
 			map[string]int64{"files_compared": 5000, "footers_checked": 5000}),
 	},
@@ -145,7 +145,7 @@ func init() {
 		Level:       "exploration",
 		Rule:        "seeded batches mixing ordinary and synonym documents (1-3 thesauri, explicit left-hand sides and equivalence groups, shared synonyms, the same term defined by several documents, empty left-hand term, 1-2 synonym fields per document) x chunk modes; for every thesaurus (+ unknown names, ordinary field names): sorted term list, a key range, Contains; for every term (+ unknown) x exclusion bitmaps {nil, empty, each defining doc, all, 3 seeded subsets}: the set of (synonym, document) pairs, alternately with fresh and recycled list/iterator objects; in memory and after persist+open; synonym fields have empty dictionaries; distinct = batch fingerprint; non-trivial = >= 2 documents and >= 1 thesaurus",
 		Assumptions: commonAssumptions,
-		Runs:        simple("C12", "plain"),
+		Runs:        simple("C12", "plain", "vec"),
 		Min: mins(map[string]int64{"syn_lookups": 20000, "syn_pairs_compared": 20000, "thes_terms_defined_by_2plus_docs": 200, "thes_prealloc_reuse": 5000},
 			map[string]int64{"syn_lookups": 300000, "syn_pairs_compared": 300000, "thes_terms_defined_by_2plus_docs": 3000, "thes_prealloc_reuse": 80000}),
 	}
@@ -159,7 +159,9 @@ func init() {
 		Runs: func(tier string) []runSpec {
 			return []runSpec{
 				{Workload: "C10", Flavour: "plain", Shards: 16, TimeoutS: tq(tier, 600, 3600)},
+				{Workload: "C10", Flavour: "vec", Shards: 8, TimeoutS: tq(tier, 600, 3600)},
 				{Workload: "C10c", Flavour: "race", Shards: 8, TimeoutS: tq(tier, 900, 3600)},
+				{Workload: "C10c", Flavour: "vecrace", Shards: 8, TimeoutS: tq(tier, 900, 3600)},
 			}
 		},
 		Min: mins(map[string]int64{"builds": 1500, "builds_on_recycled_builder": 800, "builds_rejected": 50, "concurrent_rounds": 20},
@@ -176,6 +178,7 @@ func init() {
 			return []runSpec{
 				{Workload: "C11", Flavour: "race", Shards: 16, TimeoutS: tq(tier, 900, 3600)},
 				{Workload: "C11", Flavour: "plain", Shards: 16, TimeoutS: tq(tier, 600, 3600)},
+				{Workload: "C11", Flavour: "vecrace", Shards: 8, TimeoutS: tq(tier, 900, 3600)},
 			}
 		},
 		Min: mins(map[string]int64{"concurrent_rounds": 150, "visitor_callbacks_monitored": 5000, "early_stop_visits": 3000, "op_merge": 150, "blocked_visitor_overlaps": 100},
@@ -205,7 +208,7 @@ func init() {
 		Rule:        "for each input (built batches of classes small/one/empty/mid/deep/stored, and merges of 2-3 segments with drops): fault-free run -> size S; WriteTo with a failing io.Writer at every byte offset 0..S-1 in two styles (error at once / short write then error); Persist and Merge under an RLIMIT_FSIZE window (SIGXFSZ ignored; the kernel fails the write crossing byte L with EFBIG) at every L in [0,S) when S <= 8 kB, else at every flush boundary +-1 plus 200 seeded offsets, with the merge buffer set to {1,16,64,4096,1 MiB}; oracle: L < S => error returned and no file at the path; L >= S or no fault => success, footer/CRC of C04 and the re-opened content equal to the model; distinct = (input fingerprint, buffer size); non-trivial = every input (each has >= 100 fault points)",
 		Assumptions: append([]string{"a write failure is modelled as EFBIG from the kernel (path-based operations) or an error from the io.Writer (WriteTo); fsync/close failures are outside C17's antecedent", "the file-size limit is process-wide: fault workers are single-threaded and write their own logs only outside the window"}, commonAssumptions...),
 		Runs: func(tier string) []runSpec {
-			return []runSpec{{Workload: "C17", Flavour: "plain", Shards: 16, TimeoutS: tq(tier, 900, 3600)}}
+			return []runSpec{{Workload: "C17", Flavour: "plain", Shards: 16, TimeoutS: tq(tier, 900, 3600)}, {Workload: "C17", Flavour: "vec", Shards: 16, TimeoutS: tq(tier, 900, 3600)}}
 		},
 		Min: mins(map[string]int64{"faults_writeto": 10000, "faults_persist": 5000, "faults_merge": 5000, "success_runs_checked": 40},
 			map[string]int64{"faults_writeto": 100000, "faults_persist": 50000, "faults_merge": 50000, "success_runs_checked": 300}),
@@ -220,10 +223,57 @@ func init() {
 		Runs: func(tier string) []runSpec {
 			return []runSpec{
 				{Workload: "C18", Flavour: "plain", Shards: 16, TimeoutS: tq(tier, 900, 3600)},
+				{Workload: "C18", Flavour: "vec", Shards: 16, TimeoutS: tq(tier, 900, 3600)},
 				{Workload: "C18c", Flavour: "race", Shards: 8, TimeoutS: tq(tier, 900, 3600)},
 			}
 		},
 		Min: mins(map[string]int64{"cancellation_points": 10000, "cancel_closed": 5000, "cancel_complete": 200, "cancel_phase_stored": 500, "cancel_phase_sections": 3000, "cancel_phase_footer": 100, "schedule_rounds": 150},
 			map[string]int64{"cancellation_points": 200000, "cancel_closed": 100000, "cancel_complete": 4000, "cancel_phase_stored": 10000, "cancel_phase_sections": 60000, "cancel_phase_footer": 2000, "schedule_rounds": 1900}),
+	}
+}
+
+func vecRuns(workload string, shards int) func(string) []runSpec {
+	return func(tier string) []runSpec {
+		return []runSpec{{Workload: workload, Flavour: "vec", Shards: shards, TimeoutS: tq(tier, 900, 3600)}}
+	}
+}
+
+func init() {
+	props["C14"] = &propSpec{
+		Level:       "exploration",
+		Rule:        "seeded batches with vector fields (0..k vectors per document, several per document, duplicates across documents, L2 / dot product / cosine, three optimisation modes; sizes 1..60 documents and every 50th/60th a tall one with >= 1000 vectors => clustered index) built, persisted and re-opened; one exclusion bitmap per (segment instance, field) from {nil, empty, random third, all, one doc}, a fresh re-opened segment per configuration; queries (existing and random vectors, wrong dimension) x k in {1,3,n,n+5} x {unfiltered, eligible empty / about a quarter / most / all}; oracle: every returned (doc, score) is the true score (same Score function as the engine double) of a vector of a non-excluded, eligible document, at most k pairs, no pair twice, and for exact indexes the k best vectors with boundary ties counted; num_vectors statistic; non-vector and unknown fields empty; engine monitor quiescent after each case; distinct = batch fingerprint; non-trivial = >= 2 vectors",
+		Assumptions: vecAssumptions,
+		Runs:        vecRuns("C14", 16),
+		Min: mins(map[string]int64{"vec_searches": 10000, "vec_searches_filtered": 5000, "vec_results_exact_topk": 5000, "vec_results_clustered": 20, "vec_fields_clustered": 2},
+			map[string]int64{"vec_searches": 150000, "vec_searches_filtered": 80000, "vec_results_exact_topk": 80000, "vec_results_clustered": 500, "vec_fields_clustered": 30}),
+	}
+	props["C15"] = &propSpec{
+		Level:       "exploration",
+		Rule:        "the merge plans of C05 over batches with vector fields (all plan classes; tall plans give >= 1000 surviving vectors, i.e. reconstruct + train of a clustered index); oracle on every merge output: C14's vector oracle against model-merge (survivors' vectors under the new numbering, deleted documents' vectors gone, num_vectors, fields without surviving vectors have no index), engine monitor: no native index or selector alive and no misuse once all segments of the plan are closed; distinct = (leaf fingerprints, mode, steps); non-trivial = an output with >= 2 survivors",
+		Assumptions: vecAssumptions,
+		Runs:        vecRuns("C15", 16),
+		Min: mins(map[string]int64{"merges": 300, "vec_searches": 5000, "engine_quiescence_checks": 300},
+			map[string]int64{"merges": 4000, "vec_searches": 80000, "engine_quiescence_checks": 3900}),
+	}
+	props["C16"] = &propSpec{
+		Level:       "exploration",
+		Rule:        "part A (exhaustive=true refers to it): one persisted segment with a vector field; for every ordered pair (e1,e2) of distinct exclusion sets from {none, one doc, half, all} every event sequence of length <= 5 (quick) / 6 (thorough) over {open(e1), open(e2), search(h0), search(h1), filtered-search(h0), close(h0), close(h1), expire (4 synchronous expiry passes through the verif hook)} with at most 2 handles open, on a freshly opened segment per sequence with the cache timer parked; remaining handles are closed, then the segment; oracle per search: exactly C14's answer for that handle's own exclusion set; engine monitor after every event (no use-after-close, no close-during-use, no double close) and after the bounded drain following segment close (no native index alive). Part B (race detector): 8-32 goroutines open/search/close with random exclusion sets while the expiry monitor ticks every 1 ms. distinct = histories / stress rounds",
+		Assumptions: append([]string{"a handle is closed exactly once by its owner and before the segment is closed", "the asynchronous index closers are given a bounded drain; a drain timeout is reported as a leak"}, vecAssumptions...),
+		Runs: func(tier string) []runSpec {
+			return []runSpec{
+				{Workload: "C16", Flavour: "vec", Shards: 16, TimeoutS: tq(tier, 900, 7200)},
+				{Workload: "C16c", Flavour: "vecrace", Shards: 8, TimeoutS: tq(tier, 900, 3600)},
+			}
+		},
+		Min: mins(map[string]int64{"c16_histories": 20000, "c16_searches": 20000, "c16_evictions": 500, "c16_reload_after_eviction": 200, "c16_stress_searches": 3000},
+			map[string]int64{"c16_histories": 300000, "c16_searches": 300000, "c16_evictions": 30000, "c16_reload_after_eviction": 8000, "c16_stress_searches": 40000}),
+	}
+	props["C19"] = &propSpec{
+		Level:       "fault_enumeration",
+		Rule:        "for each scenario (build of a batch with vector fields; merge of 2-3 such segments with deletions; every 6th with >= 1000 vectors so that the clustered-index operations run): engine calls are counted per operation in a fault-free run, then for every operation in {IndexFactory, SetDirectMap, Train, AddWithIDs, WriteIndexIntoBuffer, ReadIndexFromBuffer, ReconstructBatch} and every n up to its count the n-th call is made to fail; oracle: New/Merge returns an error (a failed merge leaves no file); if no error is returned the segment must pass C14's oracle in full; engine monitor afterwards: no native index alive, no misuse; distinct = scenario fingerprint; every scenario is non-trivial (>= 3 fault points)",
+		Assumptions: vecAssumptions,
+		Runs:        vecRuns("C19", 16),
+		Min: mins(map[string]int64{"c19_fault_points_build": 30, "c19_fault_points_merge": 60, "c19_fault_points_op_Train": 2, "c19_fault_points_op_ReconstructBatch": 10},
+			map[string]int64{"c19_fault_points_build": 300, "c19_fault_points_merge": 600, "c19_fault_points_op_Train": 20, "c19_fault_points_op_ReconstructBatch": 100}),
 	}
 }
